@@ -1997,6 +1997,614 @@ example : ∃ (W : Nat → Option Tree) (t : Tree) (evs : List NetEv), WorldOK W
     simp only [List.mem_cons, List.mem_nil_iff, or_false] at he
     rcases he with h | h | h | h | h | h | h | h | h | h | h <;> subst h <;> simp [EvOK, t, newTree]
 
+/-! #### liveness at quiescence for two servers: a request that is neither lost nor withdrawn is answered
+
+`Progress t r s n`: the peer of `s` holds tree `t` (roster `r`), and `s` either holds it too or is waiting
+for it *and something is under way*: its request, the answer in one of the two forms, or — deprecated form —
+the parked description together with the roster request or the roster.  The predicate is kept by every step
+that loses or withdraws nothing about `t` (any other traffic, in any order, duplicates included); when the
+network is quiet nothing can be under way, so `s` holds the tree. -/
+
+theorem Site.other_ne (s : Site) : s.other ≠ s := by cases s <;> decide
+theorem Site.other_other (s : Site) : s.other.other = s := by cases s <;> rfl
+
+def Waiting (t : Tree) (r : Roster) (s : Site) (n : Net) : Prop :=
+  (∃ v, Msg.requestTree t.id v ∈ n.inbox s.other) ∨
+  Msg.responseTree (some (makeTreeMarshal t)) (some r) ∈ n.inbox s ∨
+  Msg.treeMarshal (makeTreeMarshal t) ∈ n.inbox s ∨
+  ((∃ sl, lookup (n.ovl s).pending r.id = some sl ∧ makeTreeMarshal t ∈ sl) ∧
+    (Msg.requestRoster r.id ∈ n.inbox s.other ∨ Msg.sendRoster r ∈ n.inbox s))
+
+def Progress (t : Tree) (r : Roster) (s : Site) (n : Net) : Prop :=
+  (n.ovl s.other).get t.id = some t ∧
+  ((n.ovl s).get t.id = some t ∨ ((n.ovl s).isRequested t.id = true ∧ Waiting t r s n))
+
+/-- nothing about tree `id` is lost or withdrawn -/
+def EvKeeps (id : Nat) : NetEv → Prop
+  | .drop _ _ => False
+  | .loc _ (.unrequest i) => i ≠ id
+  | .loc _ (.expire i) => i ≠ id
+  | _ => True
+
+def Quiet (n : Net) : Prop := ∀ s, n.inbox s = []
+
+private theorem get_lookup (o : Ovl) (id : Nat) (t : Tree) : o.get id = some t ↔ lookup o.store id = some (some t) := by
+  unfold Ovl.get
+  cases lookup o.store id with
+  | none => simp
+  | some v => cases v <;> simp
+
+private theorem req_lookup (o : Ovl) (id : Nat) : o.isRequested id = true ↔ lookup o.store id = some none := by
+  simp [Ovl.isRequested]
+
+/-- a stored tree survives every local action except its own expiry (a registration under its id
+registers the same tree: ids denote trees) -/
+private theorem local_keeps_tree {W : Nat → Option Tree} (o : Ovl) (l : Local) (t : Tree)
+    (ht : W t.id = some t) (h : o.get t.id = some t)
+    (hl : match l with | .register t' => W t'.id = some t' | .instance t' => W t'.id = some t' | _ => True)
+    (hk : ∀ i, l = .expire i → i ≠ t.id) : (localStep o l).get t.id = some t := by
+  have hlk := (get_lookup o t.id t).mp h
+  have same : ∀ t' : Tree, W t'.id = some t' → t'.id = t.id → t' = t := by
+    intro t' h1 h2
+    rw [h2, ht] at h1; exact (Option.some.inj h1).symm
+  have hset : ∀ t' : Tree, W t'.id = some t' → (o.setTree t').get t.id = some t := by
+    intro t' h1
+    by_cases hid : t.id = t'.id
+    · have := same t' h1 hid.symm
+      subst this; exact get_setTree_self o t'
+    · rw [get_setTree_ne _ _ _ hid]; exact h
+  cases l with
+  | reqSend i =>
+    by_cases hi : i = t.id
+    · subst hi; simp [localStep, Ovl.wouldRequest, hlk]; exact h
+    · simp only [localStep]; split
+      · rw [get_lookup]; simp only; rw [lookup_insert_ne _ _ _ _ (Ne.symm hi)]; exact hlk
+      · exact h
+  | reqFail i => simp only [localStep]; split <;> exact h
+  | request i =>
+    by_cases hi : i = t.id
+    · subst hi; rw [get_lookup]; simp [localStep, hlk]
+    · rw [get_lookup]; simp only [localStep]; split
+      · exact hlk
+      · rw [lookup_insert_ne _ _ _ _ (Ne.symm hi)]; exact hlk
+  | unrequest i =>
+    by_cases hi : i = t.id
+    · subst hi; simp [localStep, Ovl.isRequested, hlk]; exact h
+    · simp only [localStep]; split
+      · rw [get_lookup]; simp only; rw [lookup_erase_ne _ _ _ (Ne.symm hi)]; exact hlk
+      · exact h
+  | register t' =>
+    have := hset t' hl
+    simpa [localStep, Ovl.get, Ovl.setTree] using this
+  | «instance» t' =>
+    simp only [localStep]; split
+    · have := hset t' hl
+      simpa [Ovl.get, Ovl.setTree] using this
+    · exact h
+  | expire i =>
+    have hi := hk i rfl
+    rw [get_lookup]; simp only [localStep]; rw [lookup_erase_ne _ _ _ (Ne.symm hi)]; exact hlk
+
+/-- a waiting marker survives every local action except its withdrawal and expiry, or turns into a tree -/
+private theorem local_keeps_marker (o : Ovl) (l : Local) (id : Nat) (h : o.isRequested id = true)
+    (hk : ∀ i, (l = .expire i ∨ l = .unrequest i) → i ≠ id) :
+    (localStep o l).isRequested id = true ∨ ∃ t', (localStep o l).get id = some t' := by
+  have hlk := (req_lookup o id).mp h
+  have hset : ∀ t' : Tree, (o.setTree t').isRequested id = true ∨ ∃ t'', (o.setTree t').get id = some t'' := by
+    intro t'
+    by_cases hid : id = t'.id
+    · subst hid; exact Or.inr ⟨t', get_setTree_self o t'⟩
+    · left; rw [req_lookup, lookup_setTree_ne o t' id hid]; exact hlk
+  cases l with
+  | reqSend i =>
+    left
+    by_cases hi : i = id
+    · subst hi; simp [localStep, Ovl.wouldRequest, hlk]; exact h
+    · simp only [localStep]; split
+      · rw [req_lookup]; simp only; rw [lookup_insert_ne _ _ _ _ (Ne.symm hi)]; exact hlk
+      · exact h
+  | reqFail i => left; simp only [localStep]; split <;> exact h
+  | request i =>
+    left
+    by_cases hi : i = id
+    · subst hi; rw [req_lookup]; simp [localStep, hlk]
+    · rw [req_lookup]; simp only [localStep]; split
+      · exact hlk
+      · rw [lookup_insert_ne _ _ _ _ (Ne.symm hi)]; exact hlk
+  | unrequest i =>
+    left
+    have hi := hk i (Or.inr rfl)
+    simp only [localStep]; split
+    · rw [req_lookup]; simp only; rw [lookup_erase_ne _ _ _ (Ne.symm hi)]; exact hlk
+    · exact h
+  | register t' =>
+    rcases hset t' with h' | ⟨t'', h'⟩
+    · left; simpa [localStep, Ovl.isRequested, Ovl.setTree] using h'
+    · right; exact ⟨t'', by simpa [localStep, Ovl.get, Ovl.setTree] using h'⟩
+  | «instance» t' =>
+    simp only [localStep]; split
+    · rcases hset t' with h' | ⟨t'', h'⟩
+      · left; simpa [Ovl.isRequested, Ovl.setTree] using h'
+      · right; exact ⟨t'', by simpa [Ovl.get, Ovl.setTree] using h'⟩
+    · exact Or.inl h
+  | expire i =>
+    left
+    have hi := hk i (Or.inl rfl)
+    rw [req_lookup]; simp only [localStep]; rw [lookup_erase_ne _ _ _ (Ne.symm hi)]; exact hlk
+
+private theorem local_pending (o : Ovl) (l : Local) : (localStep o l).pending = o.pending := by
+  cases l <;> simp only [localStep, Ovl.setTree] <;> (try split) <;> rfl
+
+/-- a waiting marker survives every message, or turns into a tree -/
+private theorem handle_keeps_marker (o : Ovl) (m : Msg) (id : Nat) (h : o.isRequested id = true) :
+    (handle o m).1.isRequested id = true ∨ ∃ t', (handle o m).1.get id = some t' := by
+  rcases c06_peer_step_refines_slot_spec o m id with e | ⟨_, t', _, _, e, _, _⟩
+  · left; rw [req_lookup, e]; exact (req_lookup o id).mp h
+  · right; exact ⟨t', (get_lookup _ id t').mpr e⟩
+
+private theorem hst_pending (o : Ovl) (tm : Option TreeMarshal) (ro : Option Roster) :
+    (handleSendTree o tm ro).pending = o.pending := by
+  rcases handleSendTree_cases o tm ro with e | ⟨_, _, t, _, _, _, _, _, e⟩ <;> rw [e]
+  rfl
+
+private theorem fold_pending (ro : Roster) : ∀ (sl : List TreeMarshal) (o : Ovl),
+    (sl.foldl (pendStep ro) o).pending = o.pending := by
+  intro sl
+  induction sl with
+  | nil => intro o; rfl
+  | cons tm rest ih =>
+    intro o
+    simp only [List.foldl_cons]
+    rw [ih]
+    rcases pendStep_cases ro o tm with e | ⟨t, _, _, e⟩ <;> rw [e]
+    rfl
+
+/-- a parked description stays parked under every message except the roster message for its roster id -/
+private theorem handle_keeps_parked (o : Ovl) (m : Msg) (rid : Nat) (sl : List TreeMarshal) (tm : TreeMarshal)
+    (hl : lookup o.pending rid = some sl) (hm : tm ∈ sl) (hne : ∀ ro, m = .sendRoster ro → ro.id ≠ rid) :
+    ∃ sl', lookup (handle o m).1.pending rid = some sl' ∧ tm ∈ sl' := by
+  cases m with
+  | requestTree id v =>
+    refine ⟨sl, ?_, hm⟩
+    rw [((c06_requests_read_only o).1 id v).1]; exact hl
+  | responseTree tm' ro => exact ⟨sl, by simp only [handle]; rw [hst_pending]; exact hl, hm⟩
+  | treeMarshal tm' =>
+    simp only [handle]
+    split
+    · exact ⟨sl, hl, hm⟩
+    · split
+      · exact ⟨sl, hl, hm⟩
+      · split
+        · by_cases hr : tm'.rosterId = rid
+          · refine ⟨sl ++ [tm'], ?_, List.mem_append_left _ hm⟩
+            simp only [hr, hl, Option.getD_some]
+            exact lookup_insert_self _ _ _
+          · refine ⟨sl, ?_, hm⟩
+            simp only
+            rw [lookup_insert_ne _ _ _ _ (Ne.symm hr)]; exact hl
+        · exact ⟨sl, by rw [hst_pending]; exact hl, hm⟩
+  | requestRoster rid' => exact ⟨sl, hl, hm⟩
+  | sendRoster ro =>
+    have hne' := hne ro rfl
+    simp only [handle]
+    split
+    · exact ⟨sl, hl, hm⟩
+    · rw [checkPending_eq]
+      split
+      · exact ⟨sl, hl, hm⟩
+      · refine ⟨sl, ?_, hm⟩
+        simp only
+        rw [lookup_erase_ne _ _ _ (Ne.symm hne'), fold_pending]; exact hl
+
+private theorem fold_keeps_some (ro : Roster) (id : Nat) : ∀ (sl : List TreeMarshal) (o : Ovl),
+    (o.get id).isSome = true → ((sl.foldl (pendStep ro) o).get id).isSome = true := by
+  intro sl
+  induction sl with
+  | nil => intro o h; exact h
+  | cons tm rest ih =>
+    intro o h
+    simp only [List.foldl_cons]
+    apply ih
+    rcases pendStep_cases ro o tm with e | ⟨t, _, _, e⟩ <;> rw [e]
+    · exact h
+    · by_cases hid : id = t.id
+      · subst hid; rw [get_setTree_self]; rfl
+      · rw [get_setTree_ne _ _ _ hid]; exact h
+
+private theorem fold_stores (ro : Roster) (tm0 : TreeMarshal) (t : Tree) (hmk : makeTree tm0 (some ro) = .ok t) :
+    ∀ (sl : List TreeMarshal) (o : Ovl), tm0 ∈ sl → ((sl.foldl (pendStep ro) o).get t.id).isSome = true := by
+  have hid : tm0.treeId = t.id := ((makeTree_ok hmk).1).symm
+  intro sl
+  induction sl with
+  | nil => intro o h; simp at h
+  | cons tm rest ih =>
+    intro o h
+    simp only [List.foldl_cons]
+    rcases List.mem_cons.mp h with h | h
+    · subst h
+      apply fold_keeps_some
+      unfold pendStep
+      rw [hid]
+      cases hg : o.get t.id with
+      | some t0 => simp [hg]
+      | none => simp [hmk, get_setTree_self]
+    · exact ih _ h
+
+private theorem getRoster_of_stored {W : Nat → Option Tree} (hW : WorldOK W) (o : Ovl) (ho : OvlOK W o) (t : Tree) (r : Roster)
+    (ht : W t.id = some t) (hr : t.roster = some r) (hg : o.get t.id = some t) : o.getRoster r.id = some r := by
+  cases hx : o.getRoster r.id with
+  | none =>
+    exfalso
+    unfold Ovl.getRoster at hx
+    have := List.findSome?_eq_none_iff.mp hx (t.id, some t) (get_mem o t.id t hg)
+    simp [hr] at this
+  | some ro =>
+    have hx' := hx
+    unfold Ovl.getRoster at hx'
+    obtain ⟨p, hp, hy⟩ := List.exists_of_findSome?_eq_some hx'
+    obtain ⟨id, v⟩ := p
+    cases v with
+    | none => simp at hy
+    | some t' =>
+      cases hr' : t'.roster with
+      | none => simp [hr'] at hy
+      | some r' =>
+        simp only [hr'] at hy
+        by_cases hid : r'.id = r.id
+        · simp only [hid, if_true, Option.some.injEq] at hy
+          subst hy
+          have hw' := ho.1 id t' hp
+          have hid' := (hW.1 id t' hw').1
+          have : r' = r := hW.2 t'.id t.id t' t r' r (by rw [hid']; exact hw') ht hr' hr hid
+          rw [this]
+        · simp [hid] at hy
+
+private theorem mem_rest {α} (l rest : List α) (x m : α)
+    (hrest : ∀ y, y ∈ l → y ≠ m → y ∈ rest) (hx : x ∈ l) (hne : x ≠ m) : x ∈ rest := hrest x hx hne
+
+private theorem eraseIdx_rest {α} (l : List α) (i : Nat) (m : α) (hg : l[i]? = some m) :
+    ∀ y, y ∈ l → y ≠ m → y ∈ l.eraseIdx i := by
+  intro y hy hne
+  obtain ⟨j, hj⟩ := List.getElem?_of_mem hy
+  apply List.mem_eraseIdx_iff_getElem?.mpr
+  refine ⟨j, ?_, hj⟩
+  intro e
+  subst e
+  rw [hg] at hj
+  exact hne (Option.some.inj hj).symm
+
+private theorem handleAt_ovl_same (n : Net) (u : Site) (m : Msg) (rest : List Msg) :
+    (n.handleAt u m rest).ovl u = (handle (n.ovl u) m).1 := by simp [Net.handleAt, upd]
+private theorem handleAt_ovl_other (n : Net) (u : Site) (m : Msg) (rest : List Msg) :
+    (n.handleAt u m rest).ovl u.other = n.ovl u.other := by simp [Net.handleAt, upd, Site.other_ne]
+private theorem handleAt_inbox_same (n : Net) (u : Site) (m : Msg) (rest : List Msg) :
+    (n.handleAt u m rest).inbox u = rest := by
+  have : ¬ u = u.other := fun e => Site.other_ne u e.symm
+  simp [Net.handleAt, upd, this]
+private theorem handleAt_inbox_other (n : Net) (u : Site) (m : Msg) (rest : List Msg) :
+    (n.handleAt u m rest).inbox u.other = n.inbox u.other ++ (handle (n.ovl u) m).2.map Out.toMsg := by
+  simp [Net.handleAt, upd, Site.other_ne]
+
+private theorem site_cases (s u : Site) : u = s ∨ u = s.other := by cases s <;> cases u <;> simp [Site.other]
+
+private theorem mtm_treeId (t : Tree) (r : Roster) (h : t.roster = some r) : (makeTreeMarshal t).treeId = t.id := by
+  simp [makeTreeMarshal, h]
+
+/-- the holder of the tree handles a message -/
+private theorem progress_holder {W : Nat → Option Tree} (hW : WorldOK W) (t : Tree) (r : Roster) (ht : W t.id = some t)
+    (hr : t.roster = some r) (s : Site) (n : Net) (hn : NetOK W n) (hp : Progress t r s n) (m : Msg) (rest : List Msg)
+    (hrest : ∀ y, y ∈ n.inbox s.other → y ≠ m → y ∈ rest) : Progress t r s (n.handleAt s.other m rest) := by
+  obtain ⟨hA, hB⟩ := hp
+  have e1 := handleAt_ovl_same n s.other m rest
+  have e2 : (n.handleAt s.other m rest).ovl s = n.ovl s := by
+    have := handleAt_ovl_other n s.other m rest; rwa [Site.other_other] at this
+  have e3 := handleAt_inbox_same n s.other m rest
+  have e4 : (n.handleAt s.other m rest).inbox s = n.inbox s ++ (handle (n.ovl s.other) m).2.map Out.toMsg := by
+    have := handleAt_inbox_other n s.other m rest; rwa [Site.other_other] at this
+  refine ⟨by rw [e1]; exact c06_never_replaces _ m _ _ hA, ?_⟩
+  rcases hB with hB | ⟨hreq, hw⟩
+  · left; rw [e2]; exact hB
+  · right
+    refine ⟨by rw [e2]; exact hreq, ?_⟩
+    unfold Waiting
+    rw [e2, e3, e4]
+    rcases hw with ⟨v, hv⟩ | h2 | h3 | ⟨hpk, h4 | h5⟩
+    · by_cases hx : Msg.requestTree t.id v = m
+      · subst hx
+        by_cases hv0 : v = 0
+        · right; right; left
+          apply List.mem_append_right
+          simp [handle, hA, hv0, Out.toMsg]
+        · right; left
+          apply List.mem_append_right
+          simp [handle, hA, hv0, Out.toMsg, hr]
+      · exact Or.inl ⟨v, hrest _ hv hx⟩
+    · exact Or.inr (Or.inl (List.mem_append_left _ h2))
+    · exact Or.inr (Or.inr (Or.inl (List.mem_append_left _ h3)))
+    · refine Or.inr (Or.inr (Or.inr ⟨hpk, ?_⟩))
+      by_cases hx : Msg.requestRoster r.id = m
+      · subst hx
+        right
+        apply List.mem_append_right
+        have := getRoster_of_stored hW (n.ovl s.other) (hn.1 s.other) t r ht hr hA
+        simp [handle, this, Out.toMsg]
+      · exact Or.inl (hrest _ h4 hx)
+    · exact Or.inr (Or.inr (Or.inr ⟨hpk, Or.inr (List.mem_append_left _ h5)⟩))
+
+/-- the server that waits for the tree handles a message -/
+private theorem progress_requester {W : Nat → Option Tree} (hW : WorldOK W) (t : Tree) (r : Roster) (ht : W t.id = some t)
+    (hr : t.roster = some r) (s : Site) (n : Net) (hn : NetOK W n) (hp : Progress t r s n) (m : Msg) (rest : List Msg)
+    (hm : m ∈ n.inbox s) (hrest : ∀ y, y ∈ n.inbox s → y ≠ m → y ∈ rest) : Progress t r s (n.handleAt s m rest) := by
+  obtain ⟨hA, hB⟩ := hp
+  have e1 := handleAt_ovl_same n s m rest
+  have e2 := handleAt_ovl_other n s m rest
+  have e3 := handleAt_inbox_same n s m rest
+  have e4 := handleAt_inbox_other n s m rest
+  refine ⟨by rw [e2]; exact hA, ?_⟩
+  rcases hB with hB | ⟨hreq, hw⟩
+  · left; rw [e1]; exact c06_never_replaces _ m _ _ hB
+  · have hok := (handle_ok hW (n.ovl s) m (hn.1 s) (hn.2 s m hm)).1
+    have hist : ∀ t', (handle (n.ovl s) m).1.get t.id = some t' → (handle (n.ovl s) m).1.get t.id = some t := by
+      intro t' h
+      have := hok.1 t.id t' (get_mem _ _ _ h)
+      rw [ht] at this
+      rw [h, Option.some.inj this]
+    obtain ⟨_, hid0, ro, hwf, hd, hrid0⟩ := hW.1 t.id t ht
+    have hror : ro = r := by have := hwf.1; rw [hr] at this; exact (Option.some.inj this).symm
+    subst hror
+    have hmk := world_mk hW t ro ht hr
+    have htid := mtm_treeId t ro hr
+    have hrid := mtm_rosterId t ro hr
+    -- the answer in the current form
+    by_cases hmA : m = .responseTree (some (makeTreeMarshal t)) (some ro)
+    · left; rw [e1, hmA]
+      have := c06_requested_wellformed_stored (n.ovl s) (makeTreeMarshal t) ro t (by rw [htid]; exact hid0)
+        (by rw [htid]; exact hreq) hmk
+      rwa [htid] at this
+    -- the answer in the deprecated form
+    by_cases hmB : m = .treeMarshal (makeTreeMarshal t)
+    · subst hmB
+      have hreq' : (n.ovl s).isRequested (makeTreeMarshal t).treeId = true := by rw [htid]; exact hreq
+      cases hi : (n.ovl s).instRoster (makeTreeMarshal t).rosterId with
+      | some ro' =>
+        left; rw [e1]
+        obtain ⟨id0, t0, hg0, hr0, hid0'⟩ := instRoster_mem _ _ ro' hi
+        have hw0 := (hn.1 s).1 id0 t0 (get_mem _ id0 t0 hg0)
+        have hid00 := (hW.1 id0 t0 hw0).1
+        have hrr : ro = ro' := hW.2 t.id t0.id t t0 ro ro' ht (by rw [hid00]; exact hw0) hr hr0 (by rw [hid0', hrid])
+        subst hrr
+        have hh : (handle (n.ovl s) (.treeMarshal (makeTreeMarshal t))).1 =
+            handleSendTree (n.ovl s) (some (makeTreeMarshal t)) (some ro) := by
+          simp [handle, htid, hid0, hreq, hi]
+        rw [hh]
+        have h5 := c06_requested_wellformed_stored (n.ovl s) (makeTreeMarshal t) ro t (by rw [htid]; exact hid0) hreq' hmk
+        rw [htid] at h5
+        simpa [handle] using h5
+      | none =>
+        right
+        have hi' : (n.ovl s).instRoster ro.id = none := by rw [← hrid]; exact hi
+        have hst1 : (handle (n.ovl s) (.treeMarshal (makeTreeMarshal t))).1.store = (n.ovl s).store := by
+          simp [handle, htid, hid0, hreq, hi]
+        have hp1 : (handle (n.ovl s) (.treeMarshal (makeTreeMarshal t))).1.pending =
+            insert (n.ovl s).pending ro.id ((lookup (n.ovl s).pending ro.id).getD [] ++ [makeTreeMarshal t]) := by
+          simp [handle, htid, hid0, hreq, hi', hrid]
+        have hout : (handle (n.ovl s) (.treeMarshal (makeTreeMarshal t))).2 = [.requestRoster ro.id] := by
+          simp [handle, htid, hid0, hreq, hi', hrid]
+        refine ⟨by rw [e1, req_lookup, hst1]; exact (req_lookup _ _).mp hreq, ?_⟩
+        unfold Waiting
+        rw [e1, e3, e4, hp1, hout]
+        refine Or.inr (Or.inr (Or.inr ⟨⟨_, lookup_insert_self _ _ _, by simp⟩, Or.inl ?_⟩))
+        simp [Out.toMsg]
+    -- the roster, while the description is parked
+    by_cases hmC : m = .sendRoster ro ∧ ∃ sl, lookup (n.ovl s).pending ro.id = some sl ∧ makeTreeMarshal t ∈ sl
+    · obtain ⟨hmC1, sl, hl, hmem⟩ := hmC
+      left; rw [e1]
+      have hsome : ((handle (n.ovl s) m).1.get t.id).isSome = true := by
+        rw [hmC1]
+        simp only [handle, hrid0, if_false]
+        rw [checkPending_eq, hl]
+        have := fold_stores ro (makeTreeMarshal t) t hmk sl (n.ovl s) hmem
+        simpa [Ovl.get] using this
+      cases hg : (handle (n.ovl s) m).1.get t.id with
+      | none => rw [hg] at hsome; simp at hsome
+      | some t' => rw [← hg]; exact hist t' hg
+    -- anything else
+    rcases handle_keeps_marker (n.ovl s) m t.id hreq with hk | ⟨t', hst⟩
+    · right
+      refine ⟨by rw [e1]; exact hk, ?_⟩
+      unfold Waiting
+      rw [e1, e3, e4]
+      rcases hw with ⟨v, hv⟩ | h2 | h3 | ⟨⟨sl, hl, hmem⟩, h45⟩
+      · exact Or.inl ⟨v, List.mem_append_left _ hv⟩
+      · exact Or.inr (Or.inl (hrest _ h2 (fun e => hmA e.symm)))
+      · exact Or.inr (Or.inr (Or.inl (hrest _ h3 (fun e => hmB e.symm))))
+      · have hnr : ∀ ro', m = .sendRoster ro' → ro'.id ≠ ro.id := by
+          intro ro' he hid'
+          apply hmC
+          have hmsg := hn.2 s m hm
+          rw [he] at hmsg
+          rcases hmsg with h0 | ⟨t0, hw0, hr0⟩
+          · rw [hid'] at h0; exact absurd h0 hrid0
+          · have : ro' = ro := hW.2 t0.id t.id t0 t ro' ro hw0 ht hr0 hr hid'
+            rw [he, this]
+            exact ⟨rfl, sl, hl, hmem⟩
+        obtain ⟨sl', hl', hmem'⟩ := handle_keeps_parked (n.ovl s) m ro.id sl _ hl hmem hnr
+        refine Or.inr (Or.inr (Or.inr ⟨⟨sl', hl', hmem'⟩, ?_⟩))
+        rcases h45 with h4 | h5
+        · exact Or.inl (List.mem_append_left _ h4)
+        · refine Or.inr (hrest _ h5 ?_)
+          intro e
+          exact hnr ro e.symm rfl
+    · left; rw [e1]; exact hist t' hst
+
+private theorem upd_at {α : Type} (f : Site → α) (u x : Site) (v : α) : upd f u v x = if x = u then v else f x := rfl
+
+/-- one step that loses and withdraws nothing about `t` keeps `Progress` -/
+theorem progress_step {W : Nat → Option Tree} (hW : WorldOK W) (t : Tree) (r : Roster) (ht : W t.id = some t)
+    (hr : t.roster = some r) (s : Site) (n : Net) (hn : NetOK W n) (hp : Progress t r s n) (e : NetEv)
+    (he : EvOK W e) (hk : EvKeeps t.id e) : Progress t r s (netStep n e) := by
+  -- a local action `l` at site `u`, possibly with more messages put in flight
+  have hloc : ∀ (u : Site) (l : Local) (inbox' : Site → List Msg),
+      (match l with | .register t' => W t'.id = some t' | .instance t' => W t'.id = some t' | _ => True) →
+      (∀ i, (l = .expire i ∨ l = .unrequest i) → i ≠ t.id) → (∀ x y, y ∈ n.inbox x → y ∈ inbox' x) →
+      Progress t r s { ovl := upd n.ovl u (localStep (n.ovl u) l), inbox := inbox' } := by
+    intro u l inbox' hl hkeep hsub
+    obtain ⟨hA, hB⟩ := hp
+    refine ⟨?_, ?_⟩
+    · simp only [upd_at]
+      split
+      · next h => rw [← h]; exact local_keeps_tree _ l t ht hA hl (fun i h => hkeep i (Or.inl h))
+      · exact hA
+    · by_cases hu : s = u
+      · subst hu
+        simp only [upd_at, if_true]
+        rcases hB with hB | ⟨hreq, hw⟩
+        · exact Or.inl (local_keeps_tree _ l t ht hB hl (fun i h => hkeep i (Or.inl h)))
+        · rcases local_keeps_marker (n.ovl s) l t.id hreq hkeep with h | ⟨t', h⟩
+          · right
+            refine ⟨h, ?_⟩
+            unfold Waiting
+            simp only [upd_at, if_true, local_pending]
+            rcases hw with ⟨v, hv⟩ | h2 | h3 | ⟨hpk, h4 | h5⟩
+            · exact Or.inl ⟨v, hsub _ _ hv⟩
+            · exact Or.inr (Or.inl (hsub _ _ h2))
+            · exact Or.inr (Or.inr (Or.inl (hsub _ _ h3)))
+            · exact Or.inr (Or.inr (Or.inr ⟨hpk, Or.inl (hsub _ _ h4)⟩))
+            · exact Or.inr (Or.inr (Or.inr ⟨hpk, Or.inr (hsub _ _ h5)⟩))
+          · left
+            have hok := local_ok (n.ovl s) l (hn.1 s) hl
+            have := hok.1 t.id t' (get_mem _ _ _ h)
+            rw [ht] at this
+            rw [h, Option.some.inj this]
+      · have hne : ¬ s = u := hu
+        rcases hB with hB | ⟨hreq, hw⟩
+        · left; simp only [upd_at, hne, if_false]; exact hB
+        · right
+          refine ⟨by simp only [upd_at, hne, if_false]; exact hreq, ?_⟩
+          unfold Waiting
+          simp only [upd_at, hne, if_false]
+          rcases hw with ⟨v, hv⟩ | h2 | h3 | ⟨hpk, h4 | h5⟩
+          · exact Or.inl ⟨v, hsub _ _ hv⟩
+          · exact Or.inr (Or.inl (hsub _ _ h2))
+          · exact Or.inr (Or.inr (Or.inl (hsub _ _ h3)))
+          · exact Or.inr (Or.inr (Or.inr ⟨hpk, Or.inl (hsub _ _ h4)⟩))
+          · exact Or.inr (Or.inr (Or.inr ⟨hpk, Or.inr (hsub _ _ h5)⟩))
+  -- a message handled at site `u`
+  have hdel : ∀ (u : Site) (m : Msg) (rest : List Msg), m ∈ n.inbox u → (∀ y, y ∈ n.inbox u → y ≠ m → y ∈ rest) →
+      Progress t r s (n.handleAt u m rest) := by
+    intro u m rest hm hrest
+    rcases site_cases s u with h | h
+    · subst h; exact progress_requester hW t r ht hr u n hn hp m rest hm hrest
+    · subst h; exact progress_holder hW t r ht hr s n hn hp m rest hrest
+  cases e with
+  | loc u l =>
+    refine hloc u l n.inbox ?_ ?_ (fun _ _ h => h)
+    · cases l <;> first | exact he | trivial
+    · intro i h
+      rcases h with h | h <;> subst h <;> exact hk
+  | ask u i v =>
+    simp only [netStep]
+    refine hloc u (.reqSend i) _ trivial ?_ ?_
+    · intro j h; rcases h with h | h <;> cases h
+    · intro x y hy
+      split
+      · simp only [upd_at]
+        split
+        · next h => rw [h] at hy; exact List.mem_append_left _ hy
+        · exact hy
+      · exact hy
+  | deliver u i =>
+    simp only [netStep]
+    cases hg : (n.inbox u)[i]? with
+    | none => exact hp
+    | some m => exact hdel u m _ (List.mem_of_getElem? hg) (eraseIdx_rest _ i m hg)
+  | redeliver u i =>
+    simp only [netStep]
+    cases hg : (n.inbox u)[i]? with
+    | none => exact hp
+    | some m => exact hdel u m _ (List.mem_of_getElem? hg) (fun y hy _ => hy)
+  | drop u i => exact absurd hk (by simp [EvKeeps])
+
+/-- **liveness at quiescence, two servers**: server `s` asked for tree `t` (or already waits for it with
+something under way), its peer holds `t`.  After any run in which nothing about `t` is lost or withdrawn —
+whatever else happens, in any order, with duplicates, in the current or the deprecated form — `Progress`
+still holds; and when the network is quiet (no message in flight), `s` holds exactly `t`: no request is
+stuck, no description stays parked for ever. -/
+theorem c06_two_servers_quiescent_request_answered (W : Nat → Option Tree) (hW : WorldOK W) (t : Tree) (r : Roster)
+    (ht : W t.id = some t) (hr : t.roster = some r) (s : Site) (n : Net) (hn : NetOK W n) (hp : Progress t r s n)
+    (evs : List NetEv) (hev : ∀ e ∈ evs, EvOK W e ∧ EvKeeps t.id e) :
+    Progress t r s (netRun n evs) ∧ (Quiet (netRun n evs) → ((netRun n evs).ovl s).get t.id = some t) := by
+  have hrun : NetOK W (netRun n evs) ∧ Progress t r s (netRun n evs) := by
+    unfold netRun
+    induction evs generalizing n with
+    | nil => exact ⟨hn, hp⟩
+    | cons e rest ih =>
+      simp only [List.foldl_cons]
+      have h1 := hev e (by simp)
+      exact ih _ (netStep_ok hW n e hn h1.1) (progress_step hW t r ht hr s n hn hp e h1.1 h1.2)
+        (fun x hx => hev x (List.mem_cons_of_mem _ hx))
+  refine ⟨hrun.2, ?_⟩
+  intro hq
+  rcases hrun.2.2 with h | ⟨_, hw⟩
+  · exact h
+  · exfalso
+    unfold Waiting at hw
+    simp only [hq s, hq s.other, List.not_mem_nil, exists_false, false_or, or_false, and_false] at hw
+
+/-- how a request starts: `s` does not know the tree, its peer holds it; `ask` puts `s` into `Progress` -/
+theorem c06_ask_starts_progress (t : Tree) (r : Roster) (s : Site) (n : Net) (v : Nat)
+    (hA : (n.ovl s.other).get t.id = some t) (hB : lookup (n.ovl s).store t.id = none) :
+    Progress t r s (netStep n (.ask s t.id v)) := by
+  have hne : ¬ s.other = s := Site.other_ne s
+  have hw : (n.ovl s).wouldRequest t.id = true := by simp [Ovl.wouldRequest, hB]
+  refine ⟨?_, Or.inr ⟨?_, Or.inl ⟨v, ?_⟩⟩⟩
+  · simp only [netStep, upd_at, hne, if_false]; exact hA
+  · simp only [netStep, upd_at, if_true, localStep, hw]
+    rw [req_lookup]; exact lookup_insert_self _ _ _
+  · simp only [netStep, hw, if_true, upd_at]
+    simp
+
+/-- non-vacuity of the quiescence theorem: A registered tree 1, B asks for it in the deprecated form; the
+hypotheses hold, four deliveries later the network is quiet (and the theorem says B holds the tree) -/
+example : ∃ (W : Nat → Option Tree) (t : Tree) (r : Roster) (n : Net) (evs : List NetEv), WorldOK W ∧ W t.id = some t ∧
+    t.roster = some r ∧ NetOK W n ∧ Progress t r .B n ∧ (∀ e ∈ evs, EvOK W e ∧ EvKeeps t.id e) ∧ Quiet (netRun n evs) ∧
+    ((netRun n evs).ovl .B).get t.id = some t := by
+  let ro : Roster := { id := 9, list := [⟨3, 4, false⟩, ⟨5, 6, false⟩] }
+  let t := newTree 1 ro (.node 3 3 4 0 0 (.node 5 5 6 1 0 .nil (.node 3 3 4 0 0 .nil .nil)) .nil)
+  let W : Nat → Option Tree := fun id => if id = 1 then some t else none
+  have hd : ro.Distinct := by unfold Roster.Distinct; decide
+  have hw : t.WF ro := newTree_wf 1 ro _ (by decide) (by simp [NodesOK, ro])
+  have hW : WorldOK W := by
+    refine ⟨?_, ?_⟩
+    · intro id x hx
+      by_cases h1 : id = 1
+      · simp only [W, h1, if_true, Option.some.injEq] at hx
+        subst hx; subst h1
+        exact ⟨rfl, by decide, ro, hw, hd, by decide⟩
+      · simp [W, h1] at hx
+    · intro i j x x' r r' hx hx' hr hr' _
+      by_cases h1 : i = 1
+      · by_cases h2 : j = 1
+        · simp only [W, h1, h2, if_true, Option.some.injEq] at hx hx'
+          subst hx; subst hx'
+          rw [hr] at hr'; exact Option.some.inj hr'
+        · simp [W, h2] at hx'
+      · simp [W, h1] at hx
+  have ht : W t.id = some t := by simp [W, t, newTree]
+  let n0 : Net := netStep { ovl := fun _ => {}, inbox := fun _ => [] } (.loc .A (.register t))
+  have hn0 : NetOK W n0 := netStep_ok hW _ _ (netOK_empty W) ht
+  let n1 : Net := netStep n0 (.ask .B t.id 0)
+  have hn1 : NetOK W n1 := netStep_ok hW _ _ hn0 trivial
+  have hp : Progress t ro .B n1 := c06_ask_starts_progress t ro .B n0 0 (by decide) (by decide)
+  let evs : List NetEv := [.deliver .A 0, .deliver .B 0, .deliver .A 0, .deliver .B 0]
+  have hev : ∀ e ∈ evs, EvOK W e ∧ EvKeeps t.id e := by
+    intro e he
+    simp only [evs, List.mem_cons, List.mem_nil_iff, or_false] at he
+    rcases he with h | h | h | h <;> subst h <;> exact ⟨trivial, trivial⟩
+  have hq : Quiet (netRun n1 evs) := by intro s; cases s <;> decide
+  exact ⟨W, t, ro, n1, evs, hW, ht, hw.1, hn1, hp, hev, hq,
+    (c06_two_servers_quiescent_request_answered W hW t ro ht hw.1 .B n1 hn1 hp evs hev).2 hq⟩
+
 /-! ### the code regions the model stands for
 Regenerated from /repo's source on every run (`harness/cmd/astfacts` → `OnetVerif/Shapes.lean`): the
 calls that matter for synchronisation and data flow, the lock regions and (for decision logic) the
